@@ -61,6 +61,7 @@ func c03Alphabet(m *sx.Model, stack string) []sx.Op {
 		ops = append(ops,
 			sx.Op{Kind: "UploadPart", B: u.B, K: u.K, U: uo, N: len(u.Parts) + 1, Body: "P5"},
 			sx.Op{Kind: "UploadPart", B: u.B, K: u.K, U: uo, N: 1, Body: "a", Opt: map[string]string{"ck": "bad:crc32c"}},
+			sx.Op{Kind: "UploadPart", B: u.B, K: u.K, U: uo, N: 1, Body: "b"}, // replaces part 1 when it exists
 			sx.Op{Kind: "UploadPartCopy", SB: "bka", SK: "k1", B: u.B, K: u.K, U: uo, N: len(u.Parts) + 1},
 			sx.Op{Kind: "Complete", B: u.B, K: u.K, U: uo},
 			sx.Op{Kind: "Complete", B: u.B, K: u.K, U: uo, Opt: map[string]string{"manifest": "badetag"}},
@@ -90,6 +91,8 @@ func TestC03(t *testing.T) {
 	seeds := [][]sx.Op{
 		{{Kind: "CreateBucket", B: "bka"}},
 		{{Kind: "CreateBucket", B: "bka"}, {Kind: "Put", B: "bka", K: "k1", Body: "P5"}, {Kind: "Put", B: "bka", K: "k2", Body: "P5"}, {Kind: "CreateUpload", B: "bka", K: "k2"}, {Kind: "UploadPart", B: "bka", K: "k2", U: 1, N: 1, Body: "P9"}},
+		// no shared parts: every overwrite, delete and part replacement removes a part from the store
+		{{Kind: "CreateBucket", B: "bka"}, {Kind: "Put", B: "bka", K: "k1", Body: "P5", Opt: map[string]string{"tags": "t=0"}}, {Kind: "Put", B: "bka", K: "k2", Body: "P9"}, {Kind: "CreateUpload", B: "bka", K: "k2"}, {Kind: "UploadPart", B: "bka", K: "k2", U: 1, N: 1, Body: "a"}},
 	}
 	a := &sx.Search{Run: run, TestRun: "^TestWorker$", Seeds: seeds, Stacks: []string{world.StackFS, world.StackSQL, world.StackOB}, Spec: sx.SpecByName("C03"), Depth: 1}
 	b := &sx.Search{Run: run, TestRun: "^TestWorker$", Seeds: seeds, Stacks: []string{world.StackFS}, Spec: sx.SpecByName("C03sem"), Depth: 2}
